@@ -550,6 +550,42 @@ func (r *rpf) expr(e ast.Expr) *Val {
 			return v
 		}
 		rpfFail("%s: composite literal outside the pure fragment", r.c.pos(x.Pos()))
+	case *ast.SliceExpr:
+		if x.Slice3 {
+			rpfFail("%s: 3-index slice", r.c.pos(x.Pos()))
+		}
+		base := r.expr(x.X)
+		n := int64(0)
+		switch base.K {
+		case VStr:
+			n = int64(len(base.S))
+		case VList:
+			n = int64(len(base.L))
+		default:
+			rpfFail("%s: slice of a non-list", r.c.pos(x.Pos()))
+		}
+		lo, hi := int64(0), n
+		if x.Low != nil {
+			v := r.expr(x.Low)
+			if !v.isInt() {
+				rpfFail("%s: slice bound", r.c.pos(x.Pos()))
+			}
+			lo = v.I
+		}
+		if x.High != nil {
+			v := r.expr(x.High)
+			if !v.isInt() {
+				rpfFail("%s: slice bound", r.c.pos(x.Pos()))
+			}
+			hi = v.I
+		}
+		if lo < 0 || hi < lo || hi > n {
+			rpfFail("%s: slice bounds [%d:%d] out of range (len %d)", r.c.pos(x.Pos()), lo, hi, n)
+		}
+		if base.K == VStr {
+			return vstr(base.S[lo:hi])
+		}
+		return &Val{K: VList, L: append([]*Val(nil), base.L[lo:hi]...), T: base.T}
 	case *ast.UnaryExpr:
 		if x.Op == token.AND {
 			if _, ok := x.X.(*ast.CompositeLit); ok {
@@ -600,7 +636,27 @@ func (r *rpf) expr(e ast.Expr) *Val {
 		if ftv, ok := info.Types[x.Fun]; ok && ftv.IsType() && len(x.Args) == 1 {
 			v := r.expr(x.Args[0])
 			if v.K == VInt {
+				if bt, isB := ftv.Type.Underlying().(*types.Basic); isB && bt.Info()&types.IsString != 0 {
+					rpfFail("%s: integer to string conversion", r.c.pos(x.Pos()))
+				}
 				return r.wrap(vint(v.I), ftv.Type)
+			}
+			if _, isSlice := ftv.Type.Underlying().(*types.Slice); isSlice && v.K == VStr {
+				out := &Val{K: VList, T: ftv.Type}
+				for i := 0; i < len(v.S); i++ {
+					out.L = append(out.L, vint(int64(v.S[i])))
+				}
+				return out
+			}
+			if bt, isB := ftv.Type.Underlying().(*types.Basic); isB && bt.Info()&types.IsString != 0 && v.K == VList {
+				b := make([]byte, len(v.L))
+				for i, e := range v.L {
+					if !e.isInt() {
+						rpfFail("%s: non-byte element", r.c.pos(x.Pos()))
+					}
+					b[i] = byte(e.I)
+				}
+				return vstr(string(b))
 			}
 			if v.K == VBool || v.K == VStr {
 				return v
@@ -611,6 +667,46 @@ func (r *rpf) expr(e ast.Expr) *Val {
 		if r.callHook != nil {
 			if v, ok := r.callHook(r, x, callee); ok {
 				return v
+			}
+		}
+		if b, ok := callee.(*types.Builtin); ok && b.Name() == "append" && len(x.Args) >= 1 {
+			base := r.expr(x.Args[0])
+			out := &Val{K: VList, T: info.TypeOf(x)}
+			if base.K == VList {
+				out.L = append(out.L, base.L...)
+			} else if base.K != VNil {
+				rpfFail("%s: append to a non-list", r.c.pos(x.Pos()))
+			}
+			for i, a := range x.Args[1:] {
+				v := r.expr(a)
+				if x.Ellipsis.IsValid() && i == len(x.Args)-2 {
+					switch v.K {
+					case VList:
+						out.L = append(out.L, v.L...)
+					case VStr:
+						for k := 0; k < len(v.S); k++ {
+							out.L = append(out.L, vint(int64(v.S[k])))
+						}
+					default:
+						rpfFail("%s: spread of a non-list", r.c.pos(x.Pos()))
+					}
+				} else {
+					out.L = append(out.L, v)
+				}
+			}
+			return out
+		}
+		if b, ok := callee.(*types.Builtin); ok && b.Name() == "make" && len(x.Args) >= 2 {
+			if _, isSlice := info.TypeOf(x).Underlying().(*types.Slice); isSlice {
+				n := r.expr(x.Args[1])
+				if !n.isInt() || n.I < 0 || n.I > 4096 {
+					rpfFail("%s: make with a non-constant length", r.c.pos(x.Pos()))
+				}
+				out := &Val{K: VList, T: info.TypeOf(x)}
+				for i := int64(0); i < n.I; i++ {
+					out.L = append(out.L, vint(0))
+				}
+				return out
 			}
 		}
 		if b, ok := callee.(*types.Builtin); ok && b.Name() == "len" && len(x.Args) == 1 {
